@@ -1,7 +1,7 @@
 SPECIFICATION TraceSpec
 CONSTANTS
-  N = 10
-  P = 11
+  N = 128
+  P = 131
   IdSeq <- IdsId
   Coefs = {1}
   HSet = {1}
